@@ -23,9 +23,9 @@ skey = hashlib.sha1(repr((sorted(q.stubs.items()), sorted(q.self_stubs.items()))
 items, d = unwindset(w, c, q.entry, loops, q, ent.get('rec_' + skey), ())
 for x in d: print('%-60s %-28s %s:%s unwind=%s' % (x['loop'][-60:], x['src'], x['file'], x['line'], x['unwind']))
 rc, out, dt, tmo, cmd = run_cbmc(w, q, c, q.entry, items, q.backend if isinstance(q.backend, str) else q.backend[0], to, trace_prop='*' if '--trace' in sys.argv else None)
-os.makedirs('/tmp/q2c_dbg', exist_ok=True)
-open('/tmp/q2c_dbg/out.txt', 'w').write(out); shutil.copy(c, '/tmp/q2c_dbg/h.c'); shutil.copy(ent['ll'], '/tmp/q2c_dbg/h.ll')
-print(' '.join(cmd).replace(c, '/tmp/q2c_dbg/h.c'))
+os.makedirs(os.environ.get('Q2C_DBG', '/tmp/q2c_dbg'), exist_ok=True)
+open(os.environ.get('Q2C_DBG', '/tmp/q2c_dbg') + '/out.txt', 'w').write(out); shutil.copy(c, os.environ.get('Q2C_DBG', '/tmp/q2c_dbg') + '/h.c'); shutil.copy(ent['ll'], os.environ.get('Q2C_DBG', '/tmp/q2c_dbg') + '/h.ll')
+print(' '.join(cmd).replace(c, os.environ.get('Q2C_DBG', '/tmp/q2c_dbg') + '/h.c'))
 print('rc=%s time=%.1fs timeout=%s' % (rc, dt, tmo))
 for l in out.split('\n'):
     if l.startswith('[') and not l.endswith('SUCCESS'): print(l)
